@@ -13,10 +13,10 @@ def lastRes (x : Parser × PullRes) (ins : List Instr) : List Instr × List (Lis
   | .ve ls => (ins ++ [{ verb := lastVerb (verbOf x.1.comp.meth ls), lines := ls }], x.1.log)
   | _ => (ins, x.1.log)
 
-/-- the same from the automaton: a pending last line is complete; an event it completes is handed back unless
-its METHOD gives no verb (`echs_evical_pull` passes those over) -/
+/-- the same from the automaton: a pending last line is complete (and passed over if it does not fit the stash);
+an event it completes is handed back unless its METHOD gives no verb (`echs_evical_pull` passes those over) -/
 def finish (A : Abs) (ins : List Instr) : List Instr × List (List Byte) :=
-  if A.sc.pend = true ∧ A.cur ≠ [] then
+  if A.sc.pend = true ∧ A.cur ≠ [] ∧ A.cur.length < stashSize then
     (match (procLine A.comp A.cur).2 with
       | .ve =>
         if verbOf (procLine A.comp A.cur).1.meth (procLine A.comp A.cur).1.cur == "X" then ins
@@ -26,11 +26,7 @@ def finish (A : Abs) (ins : List Instr) : List Instr × List (List Byte) :=
      A.log ++ [A.cur.takeWhile (· ≠ 0)])
   else (ins, A.log)
 
-theorem stashRest_log (p : Parser) (s : Bool) : (stashRest p s).1.log = p.log := by
-  unfold stashRest; dsimp only
-  split
-  · rfl
-  · split <;> rfl
+theorem stashRest_log (p : Parser) (s : Bool) : (stashRest p s).1.log = p.log := copyRest_log p
 
 theorem chopR_noline (p : Parser) (h : NoLine (rest p)) :
     (chopR p).2 = some .need ∧ (chopR p).1.log = p.log := by
@@ -79,25 +75,42 @@ theorem last_spec (q : Parser) (A : Abs) (hpost : Post q A) (ins : List Instr) :
   have hnf := post_not_fold q A hpost
   by_cases hm : Marked q
   · have hpend : A.sc.pend = true := hpost.rel.mark.1 hm
+    by_cases hfit : A.cur.length < stashSize
+    case neg =>
+      -- the last line does not fit: passed over
+      have hover : stashSize ≤ A.cur.length := by omega
+      have hk := (hpost.rel.over hover).1
+      have hround := round_marked_skip q ⟨hm, hnf⟩ hk
+      have hq1 : ¬ Marked ({ unmark q with skip := false, stash := [] } : Parser) := not_marked_of_eolp _ rfl
+      have hn := pullEv_noline (q.buf.length + 2) ({ unmark q with skip := false, stash := [] } : Parser)
+        (mu_lt_fuel ({ unmark q with skip := false, stash := [] } : Parser)) hq1 hnl
+      rw [pullEv_round _ q (mu_lt_fuel q), hround]
+      dsimp only
+      rw [lastRes_need _ _ hn.1, hn.2]
+      unfold finish
+      rw [if_neg (fun hx => by omega)]
+      show (ins, q.log) = _
+      rw [hpost.rel.log]
+    obtain ⟨hk, hst⟩ := hpost.rel.fits hfit
     by_cases hs : q.stash.length ≠ 0
     · have hcur : A.cur ≠ [] := by
-        rw [← hpost.rel.stash]; intro hx; rw [hx] at hs; exact hs rfl
-      have hround := round_marked q ⟨hm, hnf⟩ hs
+        rw [← hst]; intro hx; rw [hx] at hs; exact hs rfl
+      have hround := round_marked q ⟨hm, hnf⟩ hk hs
       have hq1 : ¬ Marked (doProc (unmark q)).1 := not_marked_of_eolp _ rfl
       have hq2 : ¬ Marked (resetMeth (doProc (unmark q)).1) := not_marked_of_eolp _ rfl
       have hn1 := pullEv_noline (q.buf.length + 2) _ (mu_lt_fuel (doProc (unmark q)).1) hq1 hnl
       have hn2 := pullEv_noline (q.buf.length + 2) _
         (mu_lt_fuel (resetMeth (doProc (unmark q)).1)) hq2 hnl
       have hsnd : (doProc (unmark q)).2 = (procLine A.comp A.cur).2 := by
-        rw [doProc_snd]; show (procLine q.comp q.stash).2 = _; rw [hpost.rel.comp, hpost.rel.stash]
+        rw [doProc_snd]; show (procLine q.comp q.stash).2 = _; rw [hpost.rel.comp, hst]
       have hcomp : (doProc (unmark q)).1.comp = (procLine A.comp A.cur).1 := by
-        rw [doProc_comp]; show (procLine q.comp q.stash).1 = _; rw [hpost.rel.comp, hpost.rel.stash]
+        rw [doProc_comp]; show (procLine q.comp q.stash).1 = _; rw [hpost.rel.comp, hst]
       have hlog : (doProc (unmark q)).1.log = A.log ++ [A.cur.takeWhile (· ≠ 0)] := by
         rw [doProc_log]; show q.log ++ [q.stash.takeWhile (· ≠ 0)] = _
-        rw [hpost.rel.log, hpost.rel.stash]
+        rw [hpost.rel.log, hst]
       rw [pullEv_round _ q (mu_lt_fuel q), hround]
       unfold finish
-      rw [if_pos ⟨hpend, hcur⟩]
+      rw [if_pos ⟨hpend, hcur, hfit⟩]
       unfold procRes
       cases hr : (procLine A.comp A.cur).2 with
       | none =>
@@ -123,15 +136,15 @@ theorem last_spec (q : Parser) (A : Abs) (hpost : Post q A) (ins : List Instr) :
           rw [hcomp, hlog]
     · -- the input ends in an empty line: the mark comes off, nothing is processed
       have hcur : A.cur = [] := by
-        rw [← hpost.rel.stash]; exact List.eq_nil_of_length_eq_zero (by omega)
-      have hround := round_marked_empty q ⟨hm, hnf⟩ hs
+        rw [← hst]; exact List.eq_nil_of_length_eq_zero (by omega)
+      have hround := round_marked_empty q ⟨hm, hnf⟩ hk hs
       have hq1 : ¬ Marked (unmark q) := not_marked_of_eolp _ rfl
       have hn := pullEv_noline (q.buf.length + 2) (unmark q) (mu_lt_fuel (unmark q)) hq1 hnl
       rw [pullEv_round _ q (mu_lt_fuel q), hround]
       dsimp only
       rw [lastRes_need _ _ hn.1, hn.2]
       unfold finish
-      rw [if_neg (fun hx => hx.2 hcur)]
+      rw [if_neg (fun hx => hx.2.1 hcur)]
       show (ins, q.log) = _
       rw [hpost.rel.log]
   · have hn := pullEv_noline (q.buf.length + 2) q (mu_lt_fuel q) hm hnl
